@@ -378,11 +378,15 @@ func (p *Persister) flushNow(ctx context.Context, batch map[string]persistData, 
 
 	defer tx.Discard()
 	for id, data := range batch {
-		err := data.storeFunc(ctx)
+		// Do not shadow err: a failed write must fail the whole flush, so that
+		// the callbacks below report it instead of a successful commit of a
+		// transaction that does not contain this connector's state.
+		err = data.storeFunc(ctx)
 		if err != nil {
 			p.logger.Err(ctx, err).
 				Str(log.ConnectorIDField, id).
 				Msg("error while saving connector")
+			break
 		}
 	}
 	if err == nil {
